@@ -20,7 +20,7 @@ from typing import List
 
 from ..engine import Engine
 from ..report import Report
-from ..cfg import Node
+from ..cfg import Node, TIMEOUT
 from ..facts import path_of, canon, holds, atoms_of_test
 from ..kinds import Kinds, KindFlow, show, U, ks
 from ..model import walk_own
@@ -172,31 +172,76 @@ def n2(e: Engine, rep: Report):
             continue
         g = e.build(ctx)
         fid = g.entry.frame.id
-        for prm in ctx.func.params[1:]:
-            rep.evaluations += 1
-            pth = '%s#%d' % (prm, fid)
-            # an is_error() test on the parameter (or an element iterated
-            # from it) whose positive outcome can raise
-            iter_vars = {pth}
-            for n in g.of_kind('iter'):
-                if path_of(n.ast.iter, n.frame) == pth:
-                    for el in ast.walk(n.ast.target):
-                        if isinstance(el, ast.Name):
-                            iter_vars.add(path_of(el, n.frame))
-            tested = False
-            for n in g.of_kind('test'):
+        prms = ctx.func.params[1:]
+
+        def examined(n):
+            """parameters whose reply (or an element iterated from it) this
+            test node asks is_error() of"""
+            out = set()
+            for prm in prms:
+                pth = '%s#%d' % (prm, fid)
+                iter_vars = {pth}
+                for lp in g.of_kind('iter'):
+                    if path_of(lp.ast.iter, lp.frame) == pth:
+                        for el in ast.walk(lp.ast.target):
+                            if isinstance(el, ast.Name):
+                                iter_vars.add(path_of(el, lp.frame))
                 t = n.ast
                 if isinstance(t, ast.Call) and \
                         isinstance(t.func, ast.Attribute) and \
                         t.func.attr == 'is_error' and \
                         path_of(t.func.value, n.frame) in iter_vars:
-                    tested = True
+                    out.add(prm)
+                # any(r.is_error() for r in prm) / all(...) / a filtering
+                # comprehension over the parameter
+                for cx in ast.walk(n.ast):
+                    if isinstance(cx, (ast.GeneratorExp, ast.ListComp,
+                                       ast.SetComp)):
+                        vs = set()
+                        for gen in cx.generators:
+                            if path_of(gen.iter, n.frame) == pth:
+                                vs |= {x.id for x in ast.walk(gen.target)
+                                       if isinstance(x, ast.Name)}
+                        if vs and any(
+                                isinstance(y, ast.Call) and
+                                isinstance(y.func, ast.Attribute) and
+                                y.func.attr == 'is_error' and
+                                isinstance(y.func.value, ast.Name) and
+                                y.func.value.id in vs
+                                for y in ast.walk(cx)):
+                            out.add(prm)
+            return out
+        tests = {n.id: examined(n) for n in g.of_kind('test')}
+        for prm in prms:
+            rep.evaluations += 1
+            tested = any(prm in v for v in tests.values())
             rep.check(tested, 'N2', ctx.func.qname,
                       'parameter `%s` is tested with is_error()' % prm,
                       'the %s reply is handed to _check_replies but never '
                       'examined there: a rejection at that stage is '
                       'reported as success' % prm,
                       reason='is_error() test present', loc=ctx.func.loc())
+        # the replies are examined in the order the commands were sent
+        # (the parameter order): the error that is raised is that of the
+        # first stage that failed
+        before = dataflow.must_events_before(
+            g, lambda n: ['seen:' + q for q in tests.get(n.id, ())]
+            if n.kind == 'test' else [])
+        for a, b in zip(prms, prms[1:]):
+            for n in g.of_kind('test'):
+                if b not in tests.get(n.id, ()):
+                    continue
+                rep.evaluations += 1
+                st = before.get(n.id)
+                rep.check(st is None or ('seen:' + a) in st, 'N2',
+                          ctx.func.qname,
+                          '`%s` is examined after `%s`' % (b, a),
+                          'the %s reply is examined before the %s reply: '
+                          'when both stages failed the relay error is built '
+                          'from the later stage\'s reply (wrong class / '
+                          'wrong recipient verdict)' % (b, a),
+                          loc=n.loc(), reason='stage order mailfrom, '
+                          'rcpttos, data')
 
 
 def check_reply_uses(e: Engine, rep: Report, ctx: Ctx, short: str):
@@ -424,11 +469,24 @@ def n3(e: Engine, rep: Report, K: Kinds):
                           'is_error()')
     # (b) _send_envelope records per-recipient rejections
     ctx = e.method_ctx(SMTPC, '_send_envelope')
-    g = e.build(ctx)
+    g = e.build(ctx, inline=e.inline_same_self(deny=_peer_talkers(e, SMTPC)),
+                max_depth=3)
     fx = e.facts(g)
     flow = KindFlow(K, g)
     where = ctx.func.qname
     found = 0
+    # the functional spelling: {rcpt: failure for ... if reply.is_error()}
+    for fr, comp, key, val, guards in common.comp_entry_writes(g):
+        vk = K.eval(val, fr.ctx, None, fr)
+        if not bad_top_kinds(vk):
+            continue
+        found += 1
+        rep.evaluations += 1
+        rep.check(any(p and k.endswith('.is_error()') for p, k in guards),
+                  'N3', where, 'rejected RCPT recorded as failure',
+                  'per-recipient failure recorded without an is_error() '
+                  'test', loc=fr.ctx.func.loc(comp),
+                  reason='comprehension filtered by rcpt_reply.is_error()')
     for n in g.of_kind('stmt'):
         if isinstance(n.ast, ast.Assign) and \
                 isinstance(n.ast.targets[0], ast.Subscript) and \
@@ -575,7 +633,7 @@ def n4(e: Engine, rep: Report, K: Kinds):
             'classes' % (sub, base), reason='class hierarchy')
     # MX: resolver outcome mapping
     ctx = e.method_ctx('slimta.relay.smtp.mx.MxSmtpRelay', 'attempt')
-    g = e.build(ctx)
+    g = e.build(ctx, inline=e.inline_same_self(), max_depth=3)
     where = ctx.func.qname
     rep.functions.add(where)
     want = {'slimta.util.dns.DNSError': ('trans', TRANS),
@@ -757,9 +815,39 @@ def n7(e: Engine, rep: Report, rule: str):
             # loops over envelope.recipients that assign rv[<loopvar>] in
             # every iteration (possibly under `not in rv`)
             good = []
+            fn = ctx.func.node
+            rv_name = r.ast.value.id
+
+            def over_recipients(it, depth=0):
+                if 'recipients' in ast.unparse(it) and not isinstance(
+                        it, (ast.ListComp, ast.GeneratorExp)):
+                    return True
+                if isinstance(it, (ast.ListComp, ast.GeneratorExp)) and \
+                        len(it.generators) == 1 and \
+                        isinstance(it.elt, ast.Name) and \
+                        isinstance(it.generators[0].target, ast.Name) and \
+                        it.elt.id == it.generators[0].target.id:
+                    gnr = it.generators[0]
+                    only_missing = all(
+                        isinstance(c, ast.Compare) and len(c.ops) == 1 and
+                        isinstance(c.ops[0], ast.NotIn) and
+                        ast.unparse(c.comparators[0]) == rv_name
+                        for c in gnr.ifs)
+                    return only_missing and over_recipients(gnr.iter,
+                                                            depth + 1)
+                if isinstance(it, ast.Name) and depth < 3:
+                    defs = [a.value for a in walk_own(fn)
+                            if isinstance(a, ast.Assign) and any(
+                                isinstance(t, ast.Name) and t.id == it.id
+                                for t in a.targets)]
+                    return len(defs) == 1 and over_recipients(defs[0],
+                                                              depth + 1)
+                return False
+
             for lp in g.of_kind('iter'):
-                if not (isinstance(lp.ast, ast.For) and 'recipients' in
-                        ast.unparse(lp.ast.iter)):
+                # (also over a list of the recipients still missing)
+                if not (isinstance(lp.ast, ast.For) and
+                        over_recipients(lp.ast.iter)):
                     continue
                 lv = path_of(lp.ast.target, lp.frame)
 
@@ -793,35 +881,6 @@ def n7(e: Engine, rep: Report, rule: str):
             # the same fill written as one expression:
             #   rv.update((r, ...) for r in <missing>) / rv.update({r: ...})
             # where <missing> ranges over the recipients that have no entry
-            fn = ctx.func.node
-            rv_name = r.ast.value.id
-
-            def over_recipients(it, depth=0):
-                if 'recipients' in ast.unparse(it) and not isinstance(
-                        it, (ast.ListComp, ast.GeneratorExp)):
-                    return True
-                if isinstance(it, (ast.ListComp, ast.GeneratorExp)) and \
-                        len(it.generators) == 1 and \
-                        isinstance(it.elt, ast.Name) and \
-                        isinstance(it.generators[0].target, ast.Name) and \
-                        it.elt.id == it.generators[0].target.id:
-                    gnr = it.generators[0]
-                    only_missing = all(
-                        isinstance(c, ast.Compare) and len(c.ops) == 1 and
-                        isinstance(c.ops[0], ast.NotIn) and
-                        ast.unparse(c.comparators[0]) == rv_name
-                        for c in gnr.ifs)
-                    return only_missing and over_recipients(gnr.iter,
-                                                            depth + 1)
-                if isinstance(it, ast.Name) and depth < 3:
-                    defs = [a.value for a in walk_own(fn)
-                            if isinstance(a, ast.Assign) and any(
-                                isinstance(t, ast.Name) and t.id == it.id
-                                for t in a.targets)]
-                    return len(defs) == 1 and over_recipients(defs[0],
-                                                              depth + 1)
-                return False
-
             def bulk_fill(n):
                 if n.kind != 'call' or e.call_name(n) != 'update' or \
                         not isinstance(n.ast.func, ast.Attribute) or \
@@ -931,7 +990,21 @@ def n4_dns(e: Engine, rep: Report):
         rep.error('anchor vanished: slimta.relay.smtp.mx.MxRecord')
         return
     n = 0
-    for mname, m in sorted(c.methods.items()):
+
+    class _Body:
+        # the statements of the class body itself (class-level tables)
+        qname = c.qname
+
+        def __init__(self):
+            self.node = ast.Module(body=[
+                st for st in c.node.body if not isinstance(
+                    st, (ast.FunctionDef, ast.AsyncFunctionDef,
+                         ast.ClassDef))], type_ignores=[])
+
+        def loc(self, x=None):
+            return '%s:%s' % (c.module.relpath,
+                              getattr(x, 'lineno', c.node.lineno))
+    for mname, m in sorted(c.methods.items()) + [('<class body>', _Body())]:
         for x in walk_own(m.node):
             if isinstance(x, (ast.Name, ast.Attribute)):
                 nm = x.id if isinstance(x, ast.Name) else x.attr
@@ -1043,7 +1116,14 @@ def n4_catch_all(e: Engine, rep: Report):
                       loc=r.loc(), reason="constant 4xx Reply, or reused "
                       "only under code == '421'")
     ctx = e.method_ctx(SMTPC, '_run')
-    g = e.build(ctx, raises=pool.make_raises(e), assert_raises=False,
+    base_raises = pool.make_raises(e)
+
+    def raises(b, n, r):
+        # (a gevent Timeout can surface in anything that may block: the
+        # Timeout arm is judged like the others)
+        toks = base_raises(b, n, r)
+        return (set(toks) | {TIMEOUT}) if toks else toks
+    g = e.build(ctx, raises=raises, assert_raises=False,
                 inline=e.inline_same_self(
                     deny=['poll', '_connect', '_handshake', '_deliver',
                           '_disconnect', '_check_server_timeout']),
@@ -1062,9 +1142,13 @@ def n4_catch_all(e: Engine, rep: Report):
                     m.ast.args:
                 a = m.ast.args[0]
                 p = path_of(a, m.frame)
+                # (definitions on branches the facts rule out - the arm of
+                # a shared helper that belongs to another handler - are not
+                # definitions of this arm)
                 defs = [s for s in inside if s.kind == 'stmt' and
                         isinstance(s.ast, ast.Assign) and
-                        path_of(s.ast.targets[0], s.frame) == p]
+                        path_of(s.ast.targets[0], s.frame) == p and
+                        fx.at(s) is not None]
 
                 def from_error_reply(v, fr):
                     # _get_error_reply(...) - judged on its own above - also
